@@ -110,18 +110,27 @@ class SymbolNode(NodeProtocol):
         symbol_name: str,
         expression: ExpressionAstNode | BlockAstNode,
         resolver: Resolver,
+        in_parent_scope: bool = False,
     ) -> None:
         self.symbol_name = symbol_name
         self.expression = expression
         self.resolver = resolver
+        self.in_parent_scope = in_parent_scope
 
     def emit(self, current_addr: Address) -> bytes:
         return b""
 
     def pc_after(self, current_pc: Address) -> Address:
         assert isinstance(self.expression, ExpressionAstNode)
-        value = eval_expression(self.expression, self.resolver)
-        self.resolver.current_scope.add_symbol(self.symbol_name, value)
+        scope = self.resolver.current_scope
+        if self.in_parent_scope and scope.parent is not None:
+            # deferred macro argument: its names belong to the scope the macro is applied in
+            self.resolver.current_scope = scope.parent
+        try:
+            value = eval_expression(self.expression, self.resolver)
+        finally:
+            self.resolver.current_scope = scope
+        scope.add_symbol(self.symbol_name, value)
         return current_pc
 
     def __str__(self) -> str:
